@@ -63,7 +63,7 @@ def suffixes(rng):
 def run(chk, model_ok=True):
     rng = random.Random(chk.seed)
     quick = chk.tier == "quick"
-    n = 5000 if quick else 100000
+    n = 25000 if quick else 800000
     base = []
     base += gens.lines_ber(rng, n) + gens.lines_value(rng, n) + gens.lines_real(rng, n // 2)
     base += gens.lines_hdr(rng, n // 2) + gens.lines_msg(rng, n) + gens.lines_pdu(rng, n // 2)
